@@ -16,7 +16,7 @@ def run_script(impl, cfg, script, nslots, seed=0, preempt=False):
     lines = []
     facts = {'impl': impl, 'cfg': w.cfg}
     try:
-        for op in script:
+        for opi, op in enumerate(script):
             k = op['op']
             if k == 'tick':
                 target = hubmod.EPOCH + op['t'] * W.TICK
@@ -25,7 +25,8 @@ def run_script(impl, cfg, script, nslots, seed=0, preempt=False):
                     t = target if nd is None or nd > target else nd
                     w.out = []
                     w.set_time(t)
-                    lines.append({'ev': 'tick', 'a': {'t': w.ticks()}, 'st': w.snapshot(nslots)})
+                    lines.append({'ev': 'tick', 'a': {'t': w.ticks()}, 'st': w.snapshot(nslots),
+                                  'i': opi})
                 continue
             if not can(w, op):
                 continue
@@ -51,6 +52,11 @@ def run_script(impl, cfg, script, nslots, seed=0, preempt=False):
                 w.ws_frame(op['s'], frame_raw(op['f'], w.cfg['max_buf']))
             elif k == 'wsdrop':
                 w.ws_drop(op['s'])
+            elif k == 'anyreq':
+                st = any_request(w, op['kind'], op.get('s'))
+                if st is None:
+                    continue
+                a = {'status': st}
             elif k == 'send':
                 w.app_send(op['s'])
             elif k == 'disconnect':
@@ -63,7 +69,9 @@ def run_script(impl, cfg, script, nslots, seed=0, preempt=False):
             else:
                 raise ValueError(k)
             w.quiesce()
-            lines.append({'ev': k, 'a': a, 'st': w.snapshot(nslots)})
+            lines.append({'ev': k, 'a': a, 'st': w.snapshot(nslots), 'i': opi,
+                          'rid': w.nreq if k in ('open', 'openws', 'poll', 'post', 'upgrade',
+                                                 'anyreq') else 0})
         facts['blocked'] = sorted((
             rid for rid, r in w.reqs.items()
             if (isinstance(r, dict) and not r['done']) or
@@ -90,8 +98,11 @@ def sid_of(w, slot):
 
 def encode_body(toks, max_buf):
     """-> (bytes, declared length or None)"""
-    if toks == ['GARBAGE']:
-        return b'\xff\xfe\xfd', None
+    if len(toks) == 1 and toks[0].startswith('GARBAGE'):
+        return {'GARBAGE': b'\xff\xfe\xfd', 'GARBAGE1': b'x1', 'GARBAGE2': b'4ok\x1e\xc3(',
+                'GARBAGE3': b'4' + b'[' * 100000, 'GARBAGE4': b'4a\x1e\x1e4b',
+                'GARBAGE5': b'4a\x1e+1', 'GARBAGE6': b'd=', 'GARBAGE7': b'4a\x1e'
+                }[toks[0]], None
     if toks == ['OVERSIZE']:
         return b'4' + b'x' * max_buf, None
     if toks == ['EMPTYBODY']:
@@ -177,3 +188,39 @@ def gen_script(rng, nslots, length, weights=None, horizon=200, tstep=(1, 24)):
         else:
             script.append({'op': k, 's': s})
     return script
+
+
+# ---- requests that must be refused without any effect (status decided by this table) --------
+ANYREQ = {
+    'put': ('PUT', 'transport=polling&EIO=4', 405),
+    'delete': ('DELETE', 'transport=polling&EIO=4&sid={sid}', 405),
+    'head': ('HEAD', 'transport=polling&EIO=4', 405),
+    'patch': ('PATCH', 'transport=polling&EIO=4&sid={sid}', 405),
+    'options': ('OPTIONS', 'transport=polling&EIO=4', 200),
+    'options-sid': ('OPTIONS', 'transport=polling&EIO=4&sid={sid}', 200),
+    'eio3': ('GET', 'transport=polling&EIO=3', 400),
+    'eio-missing': ('GET', 'transport=polling', 400),
+    'eio-dup': ('GET', 'transport=polling&EIO=4&EIO=4', 400),
+    'transport-bogus': ('GET', 'transport=bogus&EIO=4', 400),
+    'transport-bogus-sid': ('GET', 'transport=bogus&EIO=4&sid={sid}', 400),
+    'jsonp-nonnumeric': ('GET', 'transport=polling&EIO=4&j=abc', 400),
+    'jsonp-empty-sid': ('GET', 'transport=polling&EIO=4&j=x&sid={sid}', 400),
+    'ws-no-upgrade-header': ('GET', 'transport=websocket&EIO=4', 400),
+    'sid-unknown-get': ('GET', 'transport=polling&EIO=4&sid=nosuchsession', 400),
+    'sid-unknown-post': ('POST', 'transport=polling&EIO=4&sid=nosuchsession', 400),
+    'post-no-sid': ('POST', 'transport=polling&EIO=4', 400),
+    'post-eio3-no-sid': ('POST', 'transport=polling&EIO=3', 400),
+}
+
+
+def any_request(w, kind, slot):
+    method, q, status = ANYREQ[kind]
+    if '{sid}' in q:
+        if slot not in w.sids:
+            return None
+        q = q.replace('{sid}', w.sids[slot])
+    tr = w.cfg.get('transports')
+    if tr and 'polling' not in tr and 'transport=polling' in q and method in ('GET', 'POST'):
+        status = 400
+    w.http(method, q, body=b'4x' if method in ('POST', 'PUT', 'PATCH') else b'')
+    return status
